@@ -676,6 +676,14 @@ def r_boundloop(ctx):
                     has_len = any(isinstance(a, tuple) and a and a[0] in ("userlen", "usersize_hint") for a in ats)
                     if has_counter and has_len:
                         bounded = True
+            # ... or the iterator polled in the loop is `take(n)` of the user iterator with n the reported length
+            for nx in nexts:
+                bd = nx.get("bound")
+                if bd is not None:
+                    bp = as_poly(bd)
+                    ats = list(bp.atoms())
+                    if len(ats) == 1 and isinstance(ats[0], tuple) and ats[0][0] in ("userlen", "usersize_hint") and bp == Poly.atom(ats[0]):
+                        bounded = True
             if not bounded:
                 res.fail(dp, "unbounded-write-loop/%s" % an, "the loop that writes replacement items into storage stops only when the user iterator returns None: "
                          "an iterator yielding more than its len() writes past the reserved space / over the moved tail", span=span_of_effect(writes[0]))
